@@ -12,12 +12,30 @@ RULE = ("generated journals (30% ill-formed: missing/duplicate open, wrong asser
 TRUSTED_BASE = ["Coq 8.16.1 kernel", "extraction + drv_c05.ml", "harness c05.go: variant construction, include-tree writer, canonicalisation of printed journals",
                 "the comparison of the binary with itself is done in the harness (Go), not in Coq"]
 ASSUMPTIONS = ["goroutine schedules of the concurrent loader are whatever the runs happen to produce (see C06/C19)"]
-TECHNIQUE = ("Coq: permutation-invariance theorems about the builder and the ledger sums of the model; metamorphic differential runs "
-             "of the binary on permuted and split inputs")
-LEVEL_TEXT = ("Theorems (Properties/C05.v): the builder maps permuted directive lists to days with equal dates and permuted "
-              "per-kind lists; the journal period and hence the partition are invariant; every unvalued report cell (without --close) "
-              "is invariant. The byte-level statement for all commands is decided by the metamorphic runs (partial).")
-LEVEL_NOTE = "Trusted: kernel, extraction, harness. Partial: byte equality of reports/print under permutation is compared, not proved."
+TECHNIQUE = ("Coq: a generic lemma for monadic folds whose steps commute pairwise (fold_res_perm: permuted lists give 'both fail or related "
+             "states'), instantiated for ParseDirective, the builder, the checker (all variants) and the stages ComputePrices, Valuate, Filter, "
+             "CloseAccounts, Query.Into of the model; sorted-map states are Leibniz-equal, report trees are equal up to the order of each node's "
+             "amounts list and the renderer is shown blind to that order; the include loader returns a permutation of the visited files' "
+             "directives; plus metamorphic differential runs of the binary on permuted and split inputs")
+LEVEL_TEXT = ("Theorems (Properties/C05.v, all closed under the global context; hypotheses: account names as the parser produces them "
+              "[sd_syntactic], and for balance the property's exclusion [no_conflicting_prices]: two price declarations of one day for the same "
+              "unordered commodity pair are the same declaration). "
+              "C05_verdict_perm: `knut check` (pinned, lenient and repaired checker, command level incl. accrual expansion) accepts a journal iff "
+              "it accepts every permutation of it (also C05_wellformed_perm, C05_check_model_perm, C05_parse_perm). "
+              "C05_build_perm: permuted directive lists give builders with the same dates, the same period and, per day and kind, permuted lists. "
+              "C05_balance_perm / C05_balance_bytes_perm: for EVERY balance configuration, the table of a journal and of any permutation of it "
+              "are equal (hence identical CSV and text bytes), or both commands fail; via C05_balance_days_perm (pipeline up to Query.Into), "
+              "C05_balance_report_perm (report trees equal up to the order of amounts lists), C05_render_order_blind. "
+              "C05_print_equiv: both prints fail, or the texts are journal.Print of day lists with the same dates and per day and kind the same "
+              "multiset of directives. C05_layout: a successful load is a permutation of the concatenated directives of the visited files "
+              "(each file once per visit) for every include-tree shape. C05_error_depends_on_order (witness): the reported error class and "
+              "detail are NOT order-invariant, so failing runs agree only in failing. C05_example: hypotheses satisfiable, tables equal by vm_compute. "
+              "The theorems are about the model; that the binary behaves like the model on permuted and split inputs, and the goroutine schedules "
+              "of the concurrent loader, are covered by the metamorphic runs only.")
+LEVEL_NOTE = ("Trusted: kernel, extraction, harness. Proved for the model at full strength for check/balance (bytes) and print (multiset equivalence); "
+              "for the binary the same statements are compared on generated journals (binary vs binary on 3 permutations x 3 include layouts, 3 flag sets) "
+              "and the model's check verdict is compared with the binary's. Print of the model has no source positions (Build() orders a day's "
+              "directives by position since F15), so byte equality of print is not claimed. Schedules belong to C06/C19.")
 
 
 def plan(tier, seed):
